@@ -275,7 +275,7 @@ def shard_derived(args):
 def shard_exotic(args):
     tier, seed, idx = args
     acc = Acc(seed=seed)
-    specs = C.exotic_specs()
+    specs = C.exotic_specs() + C.huge_specs()
     for si in range(idx, len(specs), 8):
         spec = specs[si]
         f = C.build(spec)
@@ -289,7 +289,7 @@ def shard_exotic(args):
             if final != () or non_sgr or unknown:
                 acc.failure("C01:state_not_reset", case, "final %r non-sgr %r" % (final, non_sgr))
         # every prefix, suffix and middle slice at a run boundary displays exactly its own cells
-        pts = [p_ for p_ in C.boundary_points(spec) if 0 <= p_ <= len(want)]
+        pts = [p_ for p_ in (C.boundary_points(spec) if len(spec) < 40 and len(want) < 200 else C.few_points(spec, 16)) if 0 <= p_ <= len(want)]
         for a in pts[::2]:
             for b in pts[1::2]:
                 if a <= b:
